@@ -5,12 +5,12 @@ package verifsim
 
 import (
 	"bytes"
-	"runtime/debug"
 	"compress/gzip"
 	"compress/zlib"
 	"errors"
 	"fmt"
 	"io"
+	"runtime/debug"
 
 	"connectrpc.com/connect"
 	"connectrpc.com/vanguard"
@@ -23,14 +23,14 @@ type env struct {
 	w    *World
 	pool *simPool
 	// library fault injection: fail the k-th call of a kind
-	calls     map[string]int
-	failAt    map[string]int
-	Fired     map[string]int
-	Misuse    []string
-	decompMax int64 // largest single decompression output
-	decompCap int64
+	calls         map[string]int
+	failAt        map[string]int
+	Fired         map[string]int
+	Misuse        []string
+	decompMax     int64 // largest single decompression output
+	decompCap     int64
 	decompOverCap bool
-	curRPC    func() string
+	curRPC        func() string
 }
 
 var curEnv *env
@@ -78,7 +78,9 @@ func (c codecStable) Name() string { return c.inner.Name() }
 func (c codecStable) MarshalAppend(b []byte, m proto.Message) ([]byte, error) {
 	return codecPlain{c.inner}.MarshalAppend(b, m)
 }
-func (c codecStable) Unmarshal(d []byte, m proto.Message) error { return codecPlain{c.inner}.Unmarshal(d, m) }
+func (c codecStable) Unmarshal(d []byte, m proto.Message) error {
+	return codecPlain{c.inner}.Unmarshal(d, m)
+}
 func (c codecStable) MarshalAppendStable(b []byte, m proto.Message) ([]byte, error) {
 	if err := curEnv.seam("marshal"); err != nil {
 		return nil, err
@@ -91,7 +93,9 @@ func (c codecFull) Name() string { return c.inner.Name() }
 func (c codecFull) MarshalAppend(b []byte, m proto.Message) ([]byte, error) {
 	return codecPlain{c.inner}.MarshalAppend(b, m)
 }
-func (c codecFull) Unmarshal(d []byte, m proto.Message) error { return codecPlain{c.inner}.Unmarshal(d, m) }
+func (c codecFull) Unmarshal(d []byte, m proto.Message) error {
+	return codecPlain{c.inner}.Unmarshal(d, m)
+}
 func (c codecFull) MarshalAppendStable(b []byte, m proto.Message) ([]byte, error) {
 	return codecStable{c.inner}.MarshalAppendStable(b, m)
 }
@@ -271,27 +275,27 @@ func (d *simDecompressor) Close() error {
 // deterministic buffer pool behind the verif hook
 
 type bufMeta struct {
-	free     bool
-	capAtGet int
-	owner    string
-	poisoned int // number of poisoned bytes (whole capacity)
-	freedAt  int // pool op counter when released
+	free      bool
+	capAtGet  int
+	owner     string
+	poisoned  int // number of poisoned bytes (whole capacity)
+	freedAt   int // pool op counter when released
 	freedSite string
 }
 
 type simPool struct {
-	plan   PoolPlan
-	rng    *Chooser
-	free   []*bytes.Buffer
-	meta   map[*bytes.Buffer]*bufMeta
-	ops    int
+	plan                      PoolPlan
+	rng                       *Chooser
+	free                      []*bytes.Buffer
+	meta                      map[*bytes.Buffer]*bufMeta
+	ops                       int
 	Gets, Puts, Reuses, Fresh int
-	MaxCap     int
-	MaxGrowth  int
-	Violations []string
-	owner      func() string
-	CrossRPCReuse int
-	lastOwner  map[*bytes.Buffer]string
+	MaxCap                    int
+	MaxGrowth                 int
+	Violations                []string
+	owner                     func() string
+	CrossRPCReuse             int
+	lastOwner                 map[*bytes.Buffer]string
 }
 
 const poisonByte = 0xA5
